@@ -235,6 +235,9 @@ pub enum RepKind {
     Stepped,
     Offset,
     Broadcast,
+    /// contiguous up to size-1 dims: only size-1 axes are moved / carry non-canonical strides,
+    /// so `data()` is still `Some` although the strides are not row-major
+    UnitPerm,
 }
 impl RepKind {
     pub fn name(self) -> &'static str {
@@ -244,6 +247,7 @@ impl RepKind {
             RepKind::Stepped => "stepped",
             RepKind::Offset => "offset",
             RepKind::Broadcast => "broadcast",
+            RepKind::UnitPerm => "unitperm",
         }
     }
 }
@@ -256,10 +260,16 @@ pub struct Rep {
     slice: Vec<(usize, usize, usize)>,
     perm: Option<Vec<usize>>,
     bshape: Option<Vec<usize>>,
+    /// view the (contiguous) backing data through this shape and these strides instead
+    custom: Option<(Vec<usize>, Vec<usize>)>,
     pub applied: bool,
 }
 
 fn derive_view<'a, T>(t: &'a Tensor<T>, rep: &Rep) -> TensorView<'a, T> {
+    if let Some((shape, strides)) = &rep.custom {
+        return TensorView::from_slice_with_strides(shape.as_slice(), t.data().unwrap(), strides.as_slice())
+            .expect("custom strides");
+    }
     let items: Vec<SliceItem> = rep
         .slice
         .iter()
@@ -288,6 +298,7 @@ impl Rep {
             slice: full.clone(),
             perm: None,
             bshape: None,
+            custom: None,
             applied,
         };
         let rep = match kind {
@@ -308,6 +319,7 @@ impl Rep {
                         slice: bfull,
                         perm: Some(inverse_perm(&p)),
                         bshape: None,
+                        custom: None,
                         applied: true,
                     }
                 }
@@ -351,7 +363,51 @@ impl Rep {
                     fill!(Int32Tensor);
                     fill!(Int8Tensor);
                     fill!(UInt8Tensor);
-                    Rep { kind, backing, slice, perm: None, bshape: None, applied: true }
+                    Rep { kind, backing, slice, perm: None, bshape: None, custom: None, applied: true }
+                }
+            }
+            RepKind::UnitPerm => {
+                let units: Vec<usize> = (0..rank).filter(|&d| lt.shape[d] == 1).collect();
+                if rank < 2 || units.is_empty() || numel(&lt.shape) == 0 {
+                    contig(false)
+                } else if rng.chance(1, 2) {
+                    // move one size-1 axis to another position in the backing tensor and view it
+                    // through the inverse permutation: strides like [3, 1, 1] for shape [2, 1, 3]
+                    let i = rng.pick(&units);
+                    let mut order: Vec<usize> = (0..rank).filter(|&d| d != i).collect();
+                    // prefer the last position: the moved axis then has stride exactly 1, the value
+                    // that `stride(axis) == 1` fast-path guards look for
+                    let mut j = if rng.chance(1, 2) { rank - 1 } else { rng.below(rank as u64) as usize };
+                    if j == i {
+                        j = if i + 1 < rank { rank - 1 } else { 0 };
+                    }
+                    order.insert(j, i);
+                    let b = lt.permuted(&order);
+                    let bfull: Vec<(usize, usize, usize)> = b.shape.iter().map(|&s| (0, s, 1)).collect();
+                    Rep {
+                        kind,
+                        backing: b.to_value(),
+                        slice: bfull,
+                        perm: Some(inverse_perm(&order)),
+                        bshape: None,
+                        custom: None,
+                        applied: true,
+                    }
+                } else {
+                    // row-major data, arbitrary strides on the size-1 axes
+                    let mut strides = contiguous_strides(&lt.shape);
+                    for &d in &units {
+                        strides[d] = rng.pick(&[0usize, 1, 2, 5, numel(&lt.shape), 1, 1]);
+                    }
+                    Rep {
+                        kind,
+                        backing: lt.to_value(),
+                        slice: full.clone(),
+                        perm: None,
+                        bshape: None,
+                        custom: Some((lt.shape.clone(), strides)),
+                        applied: true,
+                    }
                 }
             }
             RepKind::Broadcast => {
@@ -392,6 +448,7 @@ impl Rep {
                         slice: bfull,
                         perm: None,
                         bshape: Some(lt.shape.clone()),
+                        custom: None,
                         applied: true,
                     }
                 }
@@ -454,6 +511,8 @@ pub enum OwnedKind {
     Permuted,
     Strided,
     WithCapacity,
+    /// only size-1 axes moved: layout still reported contiguous, strides not row-major
+    UnitPerm,
 }
 impl OwnedKind {
     pub fn name(self) -> &'static str {
@@ -463,10 +522,17 @@ impl OwnedKind {
             OwnedKind::Permuted => "permuted",
             OwnedKind::Strided => "strided",
             OwnedKind::WithCapacity => "withcap",
+            OwnedKind::UnitPerm => "unitperm",
         }
     }
-    pub const ALL: [OwnedKind; 5] =
-        [OwnedKind::Exact, OwnedKind::SpareVec, OwnedKind::Permuted, OwnedKind::Strided, OwnedKind::WithCapacity];
+    pub const ALL: [OwnedKind; 6] = [
+        OwnedKind::Exact,
+        OwnedKind::SpareVec,
+        OwnedKind::Permuted,
+        OwnedKind::Strided,
+        OwnedKind::WithCapacity,
+        OwnedKind::UnitPerm,
+    ];
 }
 
 /// Build an OWNED tensor value denoting `lt` with the given storage arrangement. Returns the
@@ -488,6 +554,25 @@ pub fn owned_value(lt: &LT, kind: OwnedKind, rng: &mut SplitMix64) -> (Value, bo
                 let b = lt.permuted(&p);
                 let spare = if rng.chance(1, 2) { rng.upto(20) } else { 0 };
                 let mut v = make_value(b.dt, &b.shape, &b.vals, spare);
+                map_value!(&mut v, t, t.permute(q.as_slice()), unreachable!());
+                (v, true)
+            }
+        }
+        OwnedKind::UnitPerm => {
+            let units: Vec<usize> = (0..rank).filter(|&d| lt.shape[d] == 1).collect();
+            if rank < 2 || units.is_empty() {
+                (lt.to_value(), false)
+            } else {
+                let i = rng.pick(&units);
+                let mut order: Vec<usize> = (0..rank).filter(|&d| d != i).collect();
+                let mut j = rng.below(rank as u64) as usize;
+                if j == i {
+                    j = if i + 1 < rank { rank - 1 } else { 0 };
+                }
+                order.insert(j, i);
+                let q = inverse_perm(&order);
+                let b = lt.permuted(&order);
+                let mut v = make_value(b.dt, &b.shape, &b.vals, 0);
                 map_value!(&mut v, t, t.permute(q.as_slice()), unreachable!());
                 (v, true)
             }
@@ -729,7 +814,8 @@ pub fn hold(inp: &In, kind: RepKind, rng: &mut SplitMix64) -> (Holder, bool) {
     }
 }
 
-pub const ALT_KINDS: [RepKind; 4] = [RepKind::Permuted, RepKind::Stepped, RepKind::Offset, RepKind::Broadcast];
+pub const ALT_KINDS: [RepKind; 5] =
+    [RepKind::Permuted, RepKind::Stepped, RepKind::Offset, RepKind::Broadcast, RepKind::UnitPerm];
 
 pub fn owned_input(inp: &In, kind: OwnedKind, rng: &mut SplitMix64) -> (Value, bool) {
     match inp {
